@@ -115,6 +115,11 @@ structure Conn where
   /- queues towards the write loop, emptied within the step -/
   outQ : List OutFrame := []
   winTok : Bool := false
+  /- the write loop's HPACK encoder and `encTableSizeSeen`: the length of a HEADERS frame depends on them -/
+  enc : Hpack.EncState := {}
+  encSeen : Nat := Gen.c_defaultHeaderTableSize
+  /- write failure (`failwrite`): the octets the transport still takes before every write fails; `none` = it never fails -/
+  wbudget : Option Nat := none
 deriving Repr
 
 def maxWindow : Int := Gen.c_clientMaxWindow
@@ -371,12 +376,14 @@ def dispatch (c : Conn) (f : Frame.Frame) : Conn × Bool :=
       if r.done then ({ c with reqQueued := eraseA c.reqQueued f.stream }, false)
       else
         let (c, err) := readStream c tag r f
+        -- END_STREAM is defined for HEADERS and DATA; the bit means nothing on any other frame type
+        let endS := Frame.hasFlag f.flags Gen.c_FlagEndStream && (f.typ == Gen.c_FrameHeaders || f.typ == Gen.c_FrameData)
         -- a response that ends without ever having carried :status is malformed
         let err := match err, getReq c tag with
-          | none, some r' => if Frame.hasFlag f.flags Gen.c_FlagEndStream && !r'.statusSeen then some Err.badMsg else none
+          | none, some r' => if endS && !r'.statusSeen then some Err.badMsg else none
           | e, _ => e
         let c := match err with
-          | none => if Frame.hasFlag f.flags Gen.c_FlagEndStream then finish c tag f.stream .ok else c
+          | none => if endS then finish c tag f.stream .ok else c
           | some e => finish c tag f.stream e
         let stop := (match err with
           | some e => e.isFlowControl
@@ -434,13 +441,18 @@ def rdFrames : List RdFrame → Conn → Conn × Bool
 
 /-! ## teardown -/
 
-/-- both loops have exited: everything still in the table is resolved by the write loop -/
-def die (c : Conn) : Conn :=
-  let c := setLastErr c .eof
+/-- both loops have exited: `writeLoop` records why (`setLastErr` keeps the first reason), closes, and resolves
+everything still in the table with its own reason `e` -/
+def dieWith (c : Conn) (e : Err) : Conn :=
+  let c := setLastErr c e
   let c := { c with dead := true, outQ := [], winTok := false
-                    reqs := c.reqs.map fun r => if (c.reqQueued.any fun p => p.2 == r.tag) then r.resolve .eof else r
+                    reqs := c.reqs.map fun r => if (c.reqQueued.any fun p => p.2 == r.tag) then r.resolve e else r
                     reqQueued := [] }
   c
+
+/-- the connection is closed, cut, or ended by the read loop: `runWriteLoop` returns nil, the reason is
+`io.ErrUnexpectedEOF` -/
+def die (c : Conn) : Conn := dieWith c .eof
 
 /-- the write loop serves what the step queued: `out` frames, then the window token -/
 def drain (c : Conn) : Conn × List OutFrame :=
@@ -451,6 +463,79 @@ def drain (c : Conn) : Conn × List OutFrame :=
   let fs2 := c.outQ
   ({ c with outQ := [] }, fs ++ ds ++ fs2)
 
+/-! ## write failures
+
+Every write goes through one `bufio.Writer` whose buffer is larger than anything a step writes, so the
+transport sees one `Write` per `Flush`: `writeRequest` (HEADERS), `flushData` (one run of DATA frames),
+`writeFrame` (each frame of `out`), `Close` (GOAWAY). The scripted transport takes `wbudget` more octets
+and then fails; `bufio.Writer` keeps the error, so every later `WriteTo`/`Flush` fails as well. Whatever
+write of a step fails first, the outcome is the same: the failing branch returns the error to
+`runWriteLoop` (`writeRequest` has by then resolved its own request with it and, when it was the HEADERS
+that failed, released the `Ctx`, taken the stream out of the table and dropped its body), `writeLoop`
+records `WriteError`, closes, and resolves everything still in the table with it. So the step fails iff
+the octets it would write exceed the budget, and then the connection is dead with `write-err`
+everywhere. The one thing that is not determined is what the read loop does with frames it still has
+buffered while the write loop is on its way out: `racyAfterEnqueue`. -/
+
+/-- the HEADERS frame's block: `writeRequest` applies a changed SETTINGS_HEADER_TABLE_SIZE, then encodes the
+five fixed fields with indexing and the rest without. Returns the length of the block. -/
+def encodeHeaders (c : Conn) (fields : List (Bytes × Bytes)) : Conn × Nat :=
+  let enc := if c.encTableSize != c.encSeen then c.enc.setMax c.encTableSize else c.enc
+  let acc := fields.foldl (fun (acc : Hpack.EncState × Nat × Nat) kv =>
+      let (st', bs) := Hpack.Enc.append acc.1 { name := kv.1, value := kv.2 } (acc.2.2 < 5)
+      (st', acc.2.1 + bs.length, acc.2.2 + 1)) (enc, 0, 0)
+  ({ c with enc := acc.1, encSeen := c.encTableSize }, acc.2.1)
+
+/-- octets of the frames a step writes (frame header of 9 octets included) -/
+def wireBytes (c : Conn) : List OutFrame → Conn × Nat
+  | [] => (c, 0)
+  | f :: fs =>
+    let (c, n) := match f with
+      | .headers _ _ fields => let (c, n) := encodeHeaders c fields; (c, 9 + n)
+      | .data _ len _ => (c, 9 + len)
+      | .rst _ _ => (c, 13)
+      | .settingsAck => (c, 9)
+      | .ping _ _ => (c, 17)
+      | .windowUpdate _ _ => (c, 13)
+    let (c, m) := wireBytes c fs
+    (c, n + m)
+
+/-- something is waiting for the write loop -/
+def enqueued (c : Conn) : Bool := !c.outQ.isEmpty || c.winTok
+
+/-- what callers can see of the connection -/
+def visible (c : Conn) : List (Option Err) × Option Err := (c.reqs.map (·.errBuf), c.lastErr)
+
+/-- the read loop resolves a request, records a reason or stops at or after the frame that gave the write
+loop something to write: if that write fails, the write loop's teardown and the read loop run side by
+side and which of them a request hears from first is the scheduler's choice -/
+def racyAfterEnqueue : List RdFrame → Conn → Bool
+  | [], _ => false
+  | .unknown :: fs, c => racyAfterEnqueue fs c
+  | .bad _ _ :: _, c => enqueued c
+  | .frame f :: fs, c =>
+    let (c', stop) := rdFrame c f
+    if (stop || visible c' != visible c) && enqueued c' then true
+    else if stop then false
+    else racyAfterEnqueue fs c'
+
+inductive StepOut where
+  | frames (fs : List OutFrame)
+  | dead
+  | stuck
+  | readRes (r : Option (Err × Req))
+  | readAgain
+
+/-- the step's frames go to the transport: all of them if the budget covers them, else the connection ends
+on the write error -/
+def afterWrites (c : Conn) (fs : List OutFrame) : Conn × StepOut :=
+  let (c, total) := wireBytes c fs
+  match c.wbudget with
+  | none => (c, .frames fs)
+  | some b =>
+    if total ≤ b then ({ c with wbudget := some (b - total) }, .frames fs)
+    else (dieWith c .writeErr, .dead)
+
 /-! ## events -/
 
 inductive Event where
@@ -460,13 +545,7 @@ inductive Event where
   | read (tag : String)
   | close
   | cut
-
-inductive StepOut where
-  | frames (fs : List OutFrame)
-  | dead
-  | stuck
-  | readRes (r : Option (Err × Req))
-  | readAgain
+  | failwrite (n : Nat)
 
 def step (c : Conn) : Event → Conn × StepOut
   | .read tag =>
@@ -486,16 +565,22 @@ def step (c : Conn) : Event → Conn × StepOut
       else
         let (c, fs) := writeRequest c r
         let (c, fs2) := drain c
-        (c, .frames (fs ++ fs2))
+        afterWrites c (fs ++ fs2)
     | .bytes b =>
       if c.dead then (c, .dead) else
       let (frames, rest) := splitFrames (b.length + c.rdBuf.length + 1) (c.rdBuf ++ b)
-      let (c, stop) := rdFrames frames { c with rdBuf := rest }
+      let c0 := { c with rdBuf := rest }
+      let (c, stop) := rdFrames frames c0
       if c.stuck then (c, .stuck)
-      else if stop then (die c, .dead)
       else
-        let (c, fs) := drain c
-        (c, .frames fs)
+        -- what the write loop has been given to write in this step
+        let (cd, fs) := drain c
+        let over := match c.wbudget with
+          | some b => (wireBytes cd fs).2 > b
+          | none => false
+        if over && racyAfterEnqueue frames c0 then ({ die c with ambiguous := true }, .dead)
+        else if stop then (die c, .dead)
+        else afterWrites cd fs
     | .timeout tag =>
       match getReq c tag with
       | none => (c, .frames [])
@@ -505,9 +590,10 @@ def step (c : Conn) : Event → Conn × StepOut
         else
           let c := deletePending c r.sid
           let c := takeReq c r.sid
-          if c.dead then (c, .dead) else (c, .frames [.rst r.sid Gen.c_StreamCanceled])
+          if c.dead then (c, .dead) else afterWrites c [.rst r.sid Gen.c_StreamCanceled]
     | .close => (die c, .dead)
     | .cut => (die c, .dead)
+    | .failwrite n => ({ c with wbudget := some n }, .frames [])
     | .read _ => (c, .readAgain)
 
 end H2.Client
